@@ -61,6 +61,155 @@ type c03Decl struct {
 	name, in, typ, format, itype, iformat, cf string
 	req, allowEmpty                           bool
 	def, valid                                string
+	sum                                       int // checksum of the declaration fields (0 in the streams that fix the route themselves)
+}
+
+// c03Sum is a checksum of fields of the case. Everything Exec chooses on its own (the operation's
+// method and route, how the request is spelled and delivered, which of two equivalent entry points
+// is called) is a function of the input fields, so a case replays identically.
+func c03Sum(fields ...string) int {
+	h := uint32(2166136261)
+	for _, f := range fields {
+		for i := 0; i < len(f); i++ {
+			h = (h ^ uint32(f[i])) * 16777619
+		}
+		h = (h ^ 0xff) * 16777619
+	}
+	return int(h>>3) & 0xfffffff
+}
+
+// c03Wire is how one request travels. Every field selects between spellings or call sequences that
+// mean the same request to the unchanged code.
+type c03Wire struct {
+	enc      int  // spelling of a query string / urlencoded body (c03Encode)
+	ctype    int  // spelling of the Content-Type (c03ContentType)
+	chunked  bool // the body has no declared length (Transfer-Encoding: chunked): HasBody has to peek
+	preparse int  // a middleware in front already parsed the form: 1 ParseMultipartForm(32 MB) / ParseForm, 2 ParseMultipartForm(16): files are spilled to disk (*os.File)
+	pathEnc  int  // spelling of a path value: 0 url.PathEscape, 1 every byte escaped, 2 the same in lower-case hex
+}
+
+func c03WireOf(sum int) c03Wire {
+	return c03Wire{enc: sum % 4, ctype: (sum / 4) % 4, chunked: (sum/16)%4 == 0, preparse: []int{0, 0, 0, 1, 2}[(sum/64)%5], pathEnc: []int{0, 0, 1, 2}[(sum/320)%4]}
+}
+
+// c03Encode writes key/value pairs as a query string or urlencoded body. 0: url.Values.Encode
+// (keys sorted, space as '+'); 1: in the given order, space as %20; 2: every byte that is not a
+// letter or digit as a lower-case escape; 3: every byte escaped.
+func c03Encode(pairs [][2]string, variant int) string {
+	if variant == 0 {
+		q := url.Values{}
+		for _, kv := range pairs {
+			q.Add(kv[0], kv[1])
+		}
+		return q.Encode()
+	}
+	esc := func(t string) string {
+		switch variant {
+		case 1:
+			return strings.ReplaceAll(url.QueryEscape(t), "+", "%20")
+		}
+		var sb strings.Builder
+		for i := 0; i < len(t); i++ {
+			c := t[i]
+			if variant == 2 && (c >= 'a' && c <= 'z' || c >= 'A' && c <= 'Z' || c >= '0' && c <= '9') {
+				sb.WriteByte(c)
+			} else if variant == 2 {
+				fmt.Fprintf(&sb, "%%%02x", c)
+			} else {
+				fmt.Fprintf(&sb, "%%%02X", c)
+			}
+		}
+		return sb.String()
+	}
+	parts := make([]string, len(pairs))
+	for i, kv := range pairs {
+		parts[i] = esc(kv[0]) + "=" + esc(kv[1])
+	}
+	return strings.Join(parts, "&")
+}
+
+// c03PathEscape writes one path segment
+func c03PathEscape(t string, variant int) string {
+	if variant == 0 {
+		return url.PathEscape(t)
+	}
+	var sb strings.Builder
+	for i := 0; i < len(t); i++ {
+		if variant == 2 {
+			fmt.Fprintf(&sb, "%%%02x", t[i])
+		} else {
+			fmt.Fprintf(&sb, "%%%02X", t[i])
+		}
+	}
+	return sb.String()
+}
+
+// c03ContentType spells a media type another way: with a charset parameter, in upper case, with
+// the boundary quoted (media types are case-insensitive and may carry parameters)
+func c03ContentType(ct string, variant int) string {
+	if ct == "" {
+		return ct
+	}
+	mt, rest, has := strings.Cut(ct, ";")
+	switch variant {
+	case 1:
+		if has {
+			return mt + "; charset=utf-8;" + rest
+		}
+		return mt + "; charset=UTF-8"
+	case 2:
+		if has {
+			return strings.ToUpper(mt) + ";" + rest
+		}
+		return strings.ToUpper(mt)
+	case 3:
+		if k, v, ok := strings.Cut(rest, "="); has && ok && strings.TrimSpace(k) == "boundary" {
+			return mt + "; boundary=\"" + v + "\""
+		}
+		return mt + " ;  charset=\"utf-8\""
+	}
+	return ct
+}
+
+// c03OpaqueReader hides the length of a body from httptest.NewRequest (ContentLength -1)
+type c03OpaqueReader struct{ r io.Reader }
+
+func (o c03OpaqueReader) Read(p []byte) (int, error) { return o.r.Read(p) }
+
+func c03BodyReader(b []byte, chunked bool) io.Reader {
+	if chunked {
+		return c03OpaqueReader{bytes.NewReader(b)}
+	}
+	return bytes.NewReader(b)
+}
+
+// c03Preparse does what a middleware in front of the API may have done already (logging the form,
+// security.BearerAuth looking for access_token): parse the form. For a urlencoded body under DELETE
+// it does nothing: net/http's ParseForm does not read such a body but leaves an empty PostForm
+// behind, after which the binder finds nothing (observation recorded in the report).
+func c03Preparse(req *http.Request, multipartBody bool, mode int) {
+	if mode == 0 {
+		return
+	}
+	if multipartBody {
+		if mode == 2 {
+			_ = req.ParseMultipartForm(16)
+		} else {
+			_ = req.ParseMultipartForm(32 << 20)
+		}
+		return
+	}
+	switch req.Method {
+	case "POST", "PUT", "PATCH":
+		_ = req.ParseForm()
+	}
+}
+
+// c03Cleanup removes the temporary files of a parsed multipart form, as net/http's server does
+func c03Cleanup(req *http.Request) {
+	if req != nil && req.MultipartForm != nil {
+		_ = req.MultipartForm.RemoveAll()
+	}
 }
 
 func c03ScalarJSON(d string) interface{} {
@@ -157,16 +306,35 @@ func (d *c03Decl) paramJSON() map[string]interface{} {
 	return m
 }
 
+// route: the method and the path template of the operation. Parameters outside the body can be
+// declared on any method, form parameters on every method that can have a body; path parameters
+// stand at the end of the template or in the middle.
 func (d *c03Decl) route() (method, pattern string) {
-	method = "GET"
+	method = []string{"GET", "GET", "DELETE", "POST", "PUT", "PATCH", "OPTIONS", "GET"}[d.sum%8]
 	if d.in == "form" || d.in == "mform" {
-		method = "POST"
+		method = []string{"POST", "POST", "PUT", "PATCH", "DELETE"}[d.sum%5]
 	}
 	pattern = "/op"
 	if d.in == "path" {
 		pattern = "/op/{" + d.name + "}"
+		if (d.sum/8)%3 == 0 {
+			pattern += "/tail"
+		}
 	}
 	return
+}
+
+// basePath of the generated description
+func (d *c03Decl) basePath() string { return []string{"/", "/", "/v2"}[(d.sum/24)%3] }
+
+// requestPath: the path of a request for the operation, pv being the text for the path parameter
+func (d *c03Decl) requestPath(pv string, pathEnc int) string {
+	_, pattern := d.route()
+	p := strings.TrimRight(d.basePath(), "/") + pattern
+	if d.in == "path" {
+		p = strings.Replace(p, "{"+d.name+"}", c03PathEscape(pv, pathEnc), 1)
+	}
+	return p
 }
 
 func (d *c03Decl) specJSON() []byte {
@@ -176,13 +344,13 @@ func (d *c03Decl) specJSON() []byte {
 		"parameters":  []interface{}{d.paramJSON()},
 		"responses":   map[string]interface{}{"200": map[string]interface{}{"description": "ok"}},
 	}
-	if method == "POST" {
+	if d.in == "form" || d.in == "mform" {
 		op["consumes"] = []string{"application/x-www-form-urlencoded", "multipart/form-data"}
 	}
 	doc := map[string]interface{}{
 		"swagger":  "2.0",
 		"info":     map[string]interface{}{"title": "c03", "version": "1"},
-		"basePath": "/",
+		"basePath": d.basePath(),
 		"consumes": []string{"application/json"},
 		"produces": []string{"application/json"},
 		"paths":    map[string]interface{}{pattern: map[string]interface{}{strings.ToLower(method): op}},
@@ -199,8 +367,10 @@ type c03Built struct {
 	captured *map[string]interface{}
 	ran      *bool
 	binder   *middleware.UntypedRequestBinder
-	param    spec.Parameter
-	doc      *loads.Document
+	// routeBinder is the binder the default router built for the operation
+	routeBinder *middleware.UntypedRequestBinder
+	param       spec.Parameter
+	doc         *loads.Document
 }
 
 var c03Cache = map[string]*c03Built{}
@@ -228,12 +398,30 @@ func c03Build(key string, d *c03Decl) *c03Built {
 		}
 		return map[string]interface{}{"ok": true}, nil
 	}))
-	b.handler = middleware.Serve(doc, api)
+	// the public ways to serve the API (all end in NewOperationExecutor + BindAndValidate)
+	ctx := middleware.NewContext(doc, api, nil)
+	switch (d.sum / 72) % 4 {
+	case 0:
+		b.handler = middleware.Serve(doc, api)
+	case 1:
+		b.handler = ctx.APIHandler(nil)
+	case 2:
+		b.handler = ctx.RoutesHandler(nil)
+	default:
+		b.handler = middleware.ServeWithBuilder(doc, api, middleware.PassthroughBuilder)
+	}
 	params := doc.Analyzer.ParamsFor(method, pattern)
 	for _, p := range params {
 		b.param = p
 	}
 	b.binder = middleware.NewUntypedRequestBinder(map[string]spec.Parameter{d.name: b.param}, doc.Spec(), strfmt.Default)
+	_ = ctx.RoutesHandler(nil) // installs the default router
+	probe := httptest.NewRequest(method, "http://srv.test"+d.requestPath("1", 0), nil)
+	if route, ok := ctx.LookupRoute(probe); ok && route.Binder != nil {
+		b.routeBinder = route.Binder
+	} else {
+		b.routeBinder = b.binder
+	}
 	c03Cache[key] = b
 	return b
 }
@@ -352,6 +540,7 @@ func c03Exec(in []string) (out []string) {
 	d := &c03Decl{
 		name: proto.UnB(in[1]), in: in[2], typ: in[3], format: proto.UnB(in[4]), itype: in[5], iformat: proto.UnB(in[6]),
 		cf: in[7], req: in[8] == "1", allowEmpty: in[9] == "1", def: in[10], valid: in[11],
+		sum: c03Sum(in[1:12]...),
 	}
 	if d.itype == "-" {
 		d.itype = ""
@@ -389,30 +578,28 @@ func c03Exec(in []string) (out []string) {
 		}
 	}()
 
-	// ---- the request
-	urlPath := "/op"
-	if d.in == "path" {
-		pv := ""
-		if len(values) > 0 {
-			pv = values[len(values)-1]
-		}
-		urlPath = "/op/" + url.PathEscape(pv)
+	// ---- the request. How it is spelled and delivered is drawn from a checksum of the whole case.
+	wire := c03WireOf(c03Sum(in...))
+	pv := ""
+	if len(values) > 0 {
+		pv = values[len(values)-1]
 	}
+	urlPath := d.requestPath(pv, wire.pathEnc)
 	var body io.Reader
 	ctype := ""
-	q := url.Values{}
+	var pairs [][2]string
 	if sent {
 		for _, v := range values {
-			q.Add(sentKey, v)
+			pairs = append(pairs, [2]string{sentKey, v})
 		}
 	}
 	switch d.in {
 	case "query":
 		if sent {
-			urlPath += "?" + q.Encode()
+			urlPath += "?" + c03Encode(pairs, wire.enc)
 		}
 	case "form":
-		body, ctype = strings.NewReader(q.Encode()), "application/x-www-form-urlencoded"
+		body, ctype = c03BodyReader([]byte(c03Encode(pairs, wire.enc)), wire.chunked), "application/x-www-form-urlencoded"
 	case "mform":
 		var buf bytes.Buffer
 		mw := multipart.NewWriter(&buf)
@@ -422,7 +609,7 @@ func c03Exec(in []string) (out []string) {
 			}
 		}
 		_ = mw.Close()
-		body, ctype = &buf, mw.FormDataContentType()
+		body, ctype = c03BodyReader(buf.Bytes(), wire.chunked), mw.FormDataContentType()
 	}
 	// decoys: the same name carrying another text in a location the parameter is NOT declared in
 	// (a parameter is looked up under the rules of its own location only); switched on for a third
@@ -436,22 +623,30 @@ func c03Exec(in []string) (out []string) {
 	decoy := sum%3 == 0 && sentKey != ""
 	decoyHeader := false
 	if decoy {
-		dq := url.Values{}
-		dq.Add(sentKey, "decoy-99")
+		dq := [][2]string{{sentKey, "decoy-99"}}
 		switch d.in {
 		case "query":
 			decoyHeader = true
 		case "header", "path", "form", "mform":
 			if strings.Contains(urlPath, "?") {
-				urlPath += "&" + dq.Encode()
+				urlPath += "&" + c03Encode(dq, wire.enc)
 			} else {
-				urlPath += "?" + dq.Encode()
+				urlPath += "?" + c03Encode(dq, wire.enc)
 			}
+			// a form parameter is not a header either
+			decoyHeader = (d.in == "form" || d.in == "mform") && sum%2 == 0
 		}
 	}
+	// a second kind of decoy for the streams that hand the route parameters over themselves: the name
+	// as a route parameter of a parameter that is not declared in the path
+	var decoyRoute middleware.RouteParams
+	if sum%5 == 1 && sentKey != "" && d.in != "path" {
+		decoyRoute = middleware.RouteParams{{Name: sentKey, Value: "decoy-77"}, {Name: d.name, Value: "decoy-78"}}
+	}
 	req := httptest.NewRequest(method, "http://srv.test"+urlPath, body)
+	defer c03Cleanup(req)
 	if ctype != "" {
-		req.Header.Set("Content-Type", ctype)
+		req.Header.Set("Content-Type", c03ContentType(ctype, wire.ctype))
 	}
 	if decoyHeader {
 		req.Header.Set(sentKey, "decoy-99")
@@ -460,6 +655,19 @@ func c03Exec(in []string) (out []string) {
 		for _, v := range values {
 			req.Header.Add(sentKey, v) // canonicalises the key, as net/http's server does on the wire
 		}
+	}
+	if body != nil {
+		c03Preparse(req, d.in == "mform", wire.preparse)
+	}
+	routeParams := func() middleware.RouteParams {
+		rp := decoyRoute
+		if d.in == "path" && sent {
+			rp = nil
+			for _, v := range values {
+				rp = append(rp, middleware.RouteParam{Name: sentKey, Value: v})
+			}
+		}
+		return rp
 	}
 
 	switch in[0] {
@@ -481,14 +689,20 @@ func c03Exec(in []string) (out []string) {
 		_ = json.Unmarshal(rec.Body.Bytes(), &e)
 		return c03Err(d.name, rec.Code, e.Code, e.Message)
 	case "B":
-		var rp middleware.RouteParams
-		if d.in == "path" && sent {
-			for _, v := range values {
-				rp = append(rp, middleware.RouteParam{Name: sentKey, Value: v})
-			}
-		}
+		rp := routeParams()
 		data := map[string]interface{}{}
-		err := b.binder.Bind(req, rp, runtime.JSONConsumer(), &data)
+		var target interface{} = &data
+		if sum%7 < 2 {
+			// the map is handed over as it is (a map is a reference), holding a value from an earlier request
+			data[d.name] = "stale"
+			target = data
+		}
+		binder := b.binder
+		if sum%4 == 3 {
+			// the binder the router built for the operation (the one BindAndValidate uses)
+			binder = b.routeBinder
+		}
+		err := binder.Bind(req, rp, runtime.JSONConsumer(), target)
 		if err == nil {
 			v, ok := data[d.name]
 			if !ok {
@@ -520,13 +734,7 @@ func c03Exec(in []string) (out []string) {
 		}
 		return c03Err(d.name, status, code, msg)
 	case "S":
-		var rp middleware.RouteParams
-		if d.in == "path" && sent {
-			for _, v := range values {
-				rp = append(rp, middleware.RouteParam{Name: sentKey, Value: v})
-			}
-		}
-		return c03BindStruct(b, d, req, rp, target, fmode)
+		return c03BindStruct(b, d, req, routeParams(), target, fmode)
 	}
 	panic("C03: unknown stream " + in[0])
 }
@@ -613,6 +821,25 @@ func c03Width(format string) uint {
 }
 
 func c03Pow2(n uint) *big.Int { return new(big.Int).Lsh(big.NewInt(1), n) }
+
+// c03LimitsFit: every min/max of the validations is a value of the integer width w
+func c03LimitsFit(valid string, w uint) bool {
+	for _, v := range strings.Split(valid, ",") {
+		k, arg, _ := strings.Cut(v, ":")
+		if k != "min" && k != "max" {
+			continue
+		}
+		n, ok := new(big.Int).SetString(arg, 10)
+		if !ok {
+			return false
+		}
+		lim := c03Pow2(w - 1)
+		if n.Cmp(lim) >= 0 || n.Cmp(new(big.Int).Neg(lim)) < 0 {
+			return false
+		}
+	}
+	return true
+}
 
 // c03IntTexts: boundary literals of the width (and of the others), +-1 around, signs, leading zeros,
 // hex / underscore / exponent forms, white space, junk.
@@ -717,6 +944,11 @@ func c03Text(r *proto.Rng, sc c03Scalar) string {
 			return r.Pick("a8098c1a-f86e-11da-bd1a-00112444be1e", "A8098C1A-F86E-11DA-BD1A-00112444BE1E", "zz", "a8098c1a-f86e-11da-bd1a-00112444be1", "a8098c1af86e11dabd1a00112444be1e", "6ba7b810-9dad-11d1-80b4-00c04fd430c8")
 		case "email":
 			return r.Pick("a@b.co", "nope", "a@b", "x.y@example.com", "@", "a b@c.d")
+		}
+		if r.Chance(1, 5) {
+			// a slash, a plus, broken and literal percent signs, a NUL, a line feed, a semicolon, a long text
+			return r.Pick("a/b", "a+b", "%zz", "%", "100%25", "a\x00b", "a\nb", "a;b", "../x", "?x=1", "#frag",
+				strings.Repeat("long text ", 300))
 		}
 		return r.Pick("abc", "a b", "a,b", "a|b", "x", "0", "\xe9t\xe9", "UPPER", " lead", "trail ", "a=b&c", "%41", "+", "\"q\"", "a\tb")
 	}
@@ -890,6 +1122,10 @@ func c03Gen(r *proto.Rng, n int, tier string, emit func(in ...string)) {
 			loc = "mform"
 		}
 		name := r.Pick(c03Names...)
+		if loc != "header" && loc != "path" && r.Chance(1, 5) {
+			// names only a query string or a form can carry (header names are tokens, path names placeholders)
+			name = r.Pick("a.b", "ids[]", "q q", "filter[name]", "sort+by", "a&b=c", "50%", "\xc3\xa9t\xc3\xa9")
+		}
 		if loc == "path" {
 			name = r.Pick("pval", "limit", "Tags", "sinceId")
 		}
@@ -930,11 +1166,21 @@ func c03Gen(r *proto.Rng, n int, tier string, emit func(in ...string)) {
 		if r.Chance(1, 6) {
 			switch {
 			case isArray:
-				valid = r.Pick("minItems:1", "minItems:2", "maxItems:2", "maxItems:1", "unique", "minItems:1,maxItems:3", "unique,maxItems:3")
+				valid = r.Pick("minItems:1", "minItems:2", "maxItems:2", "maxItems:1", "unique", "minItems:1,maxItems:3", "unique,maxItems:3",
+					"minItems:0", "maxItems:0", "minItems:3,maxItems:1", "minItems:2,maxItems:2", "unique,minItems:2")
 			case sc.typ == "integer":
-				valid = r.Pick("min:1", "max:100", "min:-5,max:5", "min:0", "enum:I:1;I:2;I:3", "max:-1", "enum:I:0;I:10")
+				valid = r.Pick("min:1", "max:100", "min:-5,max:5", "min:0", "enum:I:1;I:2;I:3", "max:-1", "enum:I:0;I:10",
+					// the boundaries of the widths as limits, an empty range, a one-point range, limits together with an enumeration
+					"min:-128,max:127", "max:127", "min:-32768", "max:2147483647", "min:-2147483648", "min:5,max:1", "min:7,max:7",
+					"min:0,enum:I:-1;I:1", "enum:I:7", "max:9007199254740991", "min:-9007199254740991")
+				for !c03LimitsFit(valid, c03Width(sc.format)) {
+					// a limit outside the range of the declared format is an ill-typed declaration
+					// (go-openapi/validate then rejects every value): not generated
+					valid = r.Pick("min:1", "max:100", "min:-5,max:5", "min:-128,max:127", "min:7,max:7")
+				}
 			case sc.typ == "string" && sc.format == "":
-				valid = r.Pick("minLength:2", "maxLength:3", "minLength:1,maxLength:4", "enum:S:"+proto.B("abc")+";S:"+proto.B("x"), "maxLength:0", "enum:S:"+proto.B("abc")+";S:-")
+				valid = r.Pick("minLength:2", "maxLength:3", "minLength:1,maxLength:4", "enum:S:"+proto.B("abc")+";S:"+proto.B("x"), "maxLength:0", "enum:S:"+proto.B("abc")+";S:-",
+					"minLength:0", "minLength:3,maxLength:3", "minLength:4,maxLength:2", "maxLength:3000", "minLength:1,enum:S:-;S:"+proto.B("a b"), "enum:S:"+proto.B("a,b"))
 			}
 		}
 		declFields := []string{proto.B(name), loc, typ, proto.B(format), itype, proto.B(iformat), cf,
